@@ -139,12 +139,10 @@ theorem consumerDown_nh (cfg : Cfg) (s : St) (cid : Nat) (ok : Bool) (h : NoHeld
     · refine afterPrepare_nh (drainDone_noheld ?_ _ _)
       exact noheld_of_cons h1 rfl
   · split
+    · exact h1
     · split
       · exact h1
-      · split
-        · exact h1
-        · refine stopLoop_nh cfg _ _ _ (drainDone_noheld ?_ _ _)
-          exact noheld_of_cons h1 rfl
-    · exact h1
+      · refine stopLoop_nh cfg _ _ _ (drainDone_noheld ?_ _ _)
+        exact noheld_of_cons h1 rfl
 
 end Afkak.Group
